@@ -344,6 +344,26 @@ func (l *LedgerDouble) Init(ctx context.Context, funded map[string]*big.Int, all
 	}
 }
 
+// InitOther credits balances in other denoms (the double keeps one balance per (account, denom as spelled) unless
+// it folds case).
+func (l *LedgerDouble) InitOther(ctx context.Context, other map[string]map[string]*big.Int) {
+	for d, m := range other {
+		if l.norm(d) == l.norm(l.MintingDenom) {
+			continue
+		}
+		total := new(big.Int)
+		for a, v := range m {
+			acc, err := sdk.AccAddressFromBech32(a)
+			if err != nil {
+				panic(err)
+			}
+			l.put(ctx, balKey(acc, l.norm(d)), v)
+			total.Add(total, v)
+		}
+		l.put(ctx, "sup/"+l.norm(d), total)
+	}
+}
+
 func (l *LedgerDouble) BalanceOf(ctx context.Context, addr sdk.AccAddress, denom string) *big.Int {
 	return l.get(ctx, balKey(addr, l.norm(denom)))
 }
